@@ -216,3 +216,18 @@ func spec_forallIn(lo, hi int, p func(int) bool) bool {
 	}
 	return true
 }
+
+// spec_sortedKeys: the ascending enumeration of a map's key set (executable: insertion sort, no imports).
+func spec_sortedKeys[V any](m map[string]V) []string {
+	keys := make([]string, 0, len(m))
+	for k := range m {
+		i := len(keys)
+		keys = append(keys, k)
+		for i > 0 && keys[i-1] > k {
+			keys[i] = keys[i-1]
+			i--
+		}
+		keys[i] = k
+	}
+	return keys
+}
